@@ -478,7 +478,7 @@ static inline Args parse_args(int argc, char **argv) {
 }
 
 // the case being executed, dumped by the sanitizer death callback
-extern "C" void __sanitizer_set_death_callback(void (*)(void));
+extern "C" void __sanitizer_set_death_callback(void (*)(void)) __attribute__((weak));
 struct Current {
     static std::string &path() { static std::string p; return p; }
     static const Case *&cur() { static const Case *c = nullptr; return c; }
@@ -491,7 +491,7 @@ struct Current {
             fprintf(stderr, "FAIL-CRASH case=%s\n", path().c_str());
         }
     }
-    static void install(const std::string &p) { path() = p; __sanitizer_set_death_callback(on_death); }
+    static void install(const std::string &p) { path() = p; if (__sanitizer_set_death_callback) __sanitizer_set_death_callback(on_death); }
 };
 struct CurrentScope {
     CurrentScope(const Case &c) { Current::cur() = &c; }
